@@ -13,6 +13,19 @@ pub enum KeyType {
 }
 pub const ALL_KEY_TYPES: [KeyType; 4] = [KeyType::K256, KeyType::Libsecp, KeyType::Ed, KeyType::Combined];
 
+/// The four key types in one of their 24 orders, chosen by `seed` (a hash of the case): state leaking
+/// from a decode under one type into the next decode under another type depends on the order they are tried in.
+pub fn key_types_in_order(seed: u64) -> [KeyType; 4] {
+    let mut v = ALL_KEY_TYPES.to_vec();
+    let mut out = [KeyType::K256; 4];
+    let mut s = (seed % 24) as usize;
+    for (i, n) in [4usize, 3, 2, 1].into_iter().enumerate() {
+        out[i] = v.remove(s % n);
+        s /= n;
+    }
+    out
+}
+
 #[derive(Clone, Copy, Debug, PartialEq, Eq, Hash, Serialize, Deserialize)]
 pub enum Scheme {
     Secp,
